@@ -111,11 +111,16 @@ def build_mesh(script):
 
 
 def add_arc(script, ops, arc):
-    """put an Arc edge on every block edge that joins lattice vertices va, vb"""
+    """put an Arc edge on every block edge that joins lattice vertices va, vb (4th entry, optional: "last" = only the
+    block with the highest number among those that have the edge declares it, "first" = only the lowest)"""
     import classy_blocks as cb
 
     va, vb, off = tuple(arc[0]), tuple(arc[1]), np.asarray(arc[2], dtype=float)
+    who = arc[3] if len(arc) > 3 else "all"
+    owners = [b for b in ops if any({block_points(script, b)[1][c1], block_points(script, b)[1][c2]} == {va, vb} for c1, c2 in bm.EDGES)]
     for b, op in ops.items():
+        if who == "last" and b != max(owners) or who == "first" and b != min(owners):
+            continue
         pts, ids = block_points(script, b)
         for c1, c2 in bm.EDGES:
             if {ids[c1], ids[c2]} == {va, vb}:
